@@ -10,16 +10,21 @@ From Verif Require Import Base.Lex Pipelined.Model Pipelined.ProofsBuf Pipelined
 
 (* Get and BatchGet return the latest value the transaction wrote (rmap (rrun ops): one plain map with staging
    snapshots), wherever it lives — mutable buffer, flushing buffer, batch-get cache, store tier; a delete is returned
-   as the tombstone [] and never as an older value; absent = never written. Holds as long as no flush has failed.
+   as the tombstone [] and never as an older value; absent = never written. Holds as long as no flush has failed and
+   presumeKeyNotExists is only put on keys the transaction has not written (presume_ok). For a key whose delete was flushed as
+   Op_CheckNotExists (cneset: no lock, the store holds nothing) "absent" and "tombstone" are the same answer (eqv); for
+   every other key the equality is exact.
    The window in which a flush is in flight is explicit: OStoreStep i lets the i-th mutation of the buffer in flight reach
    the store (any order, any repetition, interleaved with every other op) between "flush started" (OFlush) and "flush
    acknowledged" (OComplete / the wait outcome), so the statement covers every interleaving of writer and flusher. *)
 Theorem C16_read_latest : forall P ops,
-  closed (run P ops) = false ->
+  presume_ok ops = true -> closed (run P ops) = false ->
   let s := run P ops in
   let truth := rmap (rrun ops) in
-  (forall k, fst (get s k) = lookup k truth) /\
-  (forall ks k, In k ks -> lookup k (fst (fst (bget s ks))) = lookup k truth) /\
+  (forall k, eqv (cneset s) k (fst (get s k)) (lookup k truth)) /\
+  (forall ks k, In k ks -> eqv (cneset s) k (lookup k (fst (fst (bget s ks)))) (lookup k truth)) /\
+  (forall k, ~ In k (cneset s) ->
+     fst (get s k) = lookup k truth /\ forall ks, In k ks -> lookup k (fst (fst (bget s ks))) = lookup k truth) /\
   (forall k, lookup k (rmap (rrun (ops ++ [ODel k]))) = Some []) /\
   truth = writes_of (wl (wrun ops)).
 Proof. exact C16_read_latest_proof. Qed.
@@ -49,10 +54,10 @@ Theorem C16_flush_error_fails_txn : forall P ops,
      let s' := run_from P s ops' in
      closed s' = true /\ snd (commit_attempt P s' wo1 wo2) = false /\
      (inflight s' = true -> forall o, pending (complete s' o) = Some false)) /\
-  (forall wo1 wo2, snd (commit_attempt P s wo1 wo2) = true ->
+  (presume_ok ops = true -> forall wo1 wo2, snd (commit_attempt P s wo1 wo2) = true ->
      let s2 := fst (commit_attempt P s wo1 wo2) in
      closed s2 = false /\ mem s2 = [] /\ flushing s2 = None /\
-     forall k, lookup k (store s2) = lookup k (rmap (rrun ops))).
+     forall k, eqv (cneset s2) k (lookup k (store s2)) (lookup k (rmap (rrun ops)))).
 Proof. exact C16_flush_error_fails_txn_proof. Qed.
 Print Assumptions C16_flush_error_fails_txn.
 
@@ -91,7 +96,7 @@ Print Assumptions C16_resolve_covers_dynamic.
 Theorem C16_crash_recoverable : forall P ops,
   forallb op_keys_ok ops = true ->
   let s := run P ops in
-  (flushed_keys s <> [] -> primary s <> [] /\ In (primary s) (flushed_keys s)) /\
+  (locked_keys s <> [] -> primary s <> [] /\ In (primary s) (locked_keys s) /\ In (primary s) (flushed_keys s)) /\
   (forall ops', primary s <> [] -> primary (run_from P s ops') = primary s) /\
   (forall locks ks, (forall k, In k locks -> In k (flushed_keys s)) ->
      let c := crun (crash_state locks) ks in
@@ -123,6 +128,21 @@ Theorem C16_already_exist_value : forall P ops o k v,
   v = lookup k (buf_of (last_flog (run P ops))).
 Proof. exact C16_already_exist_value_proof. Qed.
 Print Assumptions C16_already_exist_value.
+
+(* Key flags in flushes: SetWithFlags(presumeKeyNotExists) (OInsert) marks the key in the mutable buffer; the flush callback turns
+   a flagged put into Op_Insert and a flagged delete into Op_CheckNotExists (mut_op), every call gets the flag set of exactly the
+   buffer it is handed, the fresh buffer starts without flags, a CheckNotExists mutation writes no lock, and the primary — chosen
+   among the mutations that DO write a lock — is one of the locked keys whenever any lock was written. *)
+Theorem C16_flush_ops : forall P ops,
+  forallb op_keys_ok ops = true ->
+  let s := run P ops in
+  length (flogp s) = length (flog s) /\
+  (forall fb fp k v, In (k, v) fb -> In (k, mut_op (key_in k fp) v) (muts_of fb fp)) /\
+  (forall f m wo st' t, flush P s f m wo = (st', RFlush true 0 t) -> pne st' = [] /\ fpne st' = pne s) /\
+  (locked_keys s <> [] -> primary s <> [] /\ In (primary s) (locked_keys s)) /\
+  (forall k, In k (locked_keys s) -> In k (flushed_keys s)).
+Proof. exact C16_flush_ops_proof. Qed.
+Print Assumptions C16_flush_ops.
 
 (* Regression witnesses for the formula before a4a602e ([pipelinedStart, pipelinedEnd) with the largest key exclusive). *)
 
@@ -200,4 +220,17 @@ Example keepalive_nonvacuous :
   tmrun (run P0 [OSet k1 v1; OFlush true 0 true; OTmStart; OComplete false]) = false /\
   closed (run P0 [OSet k1 v1; OFlush true 0 true; OTmStart; OComplete false]) = true /\
   tmrun (run P0 [OSet k1 v1; OFlush true 0 true; OComplete true; OEnd]) = false.
+Proof. vm_compute. repeat split. Qed.
+
+(* key flags: k1 is inserted with presumeKeyNotExists and deleted again (CheckNotExists, no lock), k5 is a plain put: k5 becomes
+   the primary; once the flush is acknowledged and waited for, k1 is absent from every tier while the transaction's map holds
+   its tombstone — the one place where "absent" stands for "tombstone" *)
+Example flush_ops_nonvacuous :
+  let ops := [OInsert k1 v1; ODel k1; OInsert [107; 50] v1; OSet k5 v1; OFlush true 0 true] in
+  presume_ok ops = true /\
+  snd (step P0 (run P0 ops) OFlushOps) = ROps [(k1, 3); ([107; 50], 2); (k5, 0)] /\
+  primary (run P0 ops) = [107; 50] /\ locked_keys (run P0 ops) = [[107; 50]; k5] /\ cneset (run P0 ops) = [k1] /\
+  let s := run P0 (ops ++ [OComplete true; OFlushWait true]) in
+  fst (get s k1) = None /\ lookup k1 (rmap (rrun ops)) = Some [] /\ lookup k1 (store s) = None /\
+  fst (get s [107; 50]) = Some v1.
 Proof. vm_compute. repeat split. Qed.
